@@ -62,6 +62,42 @@ func planWriteInfo(addr ssa.Value) (root ssa.Value, touchesPlan bool, what strin
 	return v, touchesPlan, what
 }
 
+// viaSharedField: the written address is reached through a load of a slice/pointer field of a
+// local struct variable that was filled by copying a whole struct into it (`cpy := *step`):
+// the variable is new, but what its fields point to still belongs to the original.
+func viaSharedField(addr ssa.Value) bool {
+	v := addr
+	for i := 0; i < 12; i++ {
+		switch x := v.(type) {
+		case *ssa.FieldAddr:
+			v = x.X
+		case *ssa.IndexAddr:
+			v = x.X
+		case *ssa.Slice:
+			v = x.X
+		case *ssa.UnOp:
+			fa, ok := x.X.(*ssa.FieldAddr)
+			if x.Op != token.MUL || !ok {
+				return false
+			}
+			if al, isAl := fa.X.(*ssa.Alloc); isAl {
+				for _, st := range storesTo(al) {
+					if _, isStruct := st.Val.Type().Underlying().(*types.Struct); isStruct && st.Addr == ssa.Value(al) {
+						if _, zero := st.Val.(*ssa.Const); !zero {
+							return true
+						}
+					}
+				}
+				return false
+			}
+			v = fa
+		default:
+			return false
+		}
+	}
+	return false
+}
+
 func isFreshRoot(root ssa.Value, fn *ssa.Function) bool {
 	switch x := root.(type) {
 	case *ssa.Alloc:
@@ -81,7 +117,7 @@ func planWriters(P *Prog) map[*ssa.Function][]ssa.Instruction {
 			switch x := ins.(type) {
 			case *ssa.Store:
 				root, touches, _ := planWriteInfo(x.Addr)
-				if touches && !isFreshRoot(root, fn) {
+				if touches && (!isFreshRoot(root, fn) || viaSharedField(x.Addr)) {
 					out[fn] = append(out[fn], ins)
 				}
 			case *ssa.MapUpdate:
@@ -91,6 +127,11 @@ func planWriters(P *Prog) map[*ssa.Function][]ssa.Instruction {
 					}
 				}
 			case ssa.CallInstruction:
+				// copy(dst, …) with dst a slice held in a plan object overwrites the elements
+				if w, _ := planCopyWrite(x, fn); w {
+					out[fn] = append(out[fn], ins)
+					continue
+				}
 				// a library object embedded in the plan (atomic.Value, sync.Once, sync.Map …)
 				// written through its own pointer-receiver method
 				if w, _ := planLibraryWrite(x, fn); w {
@@ -100,6 +141,29 @@ func planWriters(P *Prog) map[*ssa.Function][]ssa.Instruction {
 		}
 	}
 	return out
+}
+
+// planCopyWrite: ins is the builtin copy whose destination is (a slice of) a slice held in a
+// field of a plan object the function did not build itself.
+func planCopyWrite(ci ssa.CallInstruction, fn *ssa.Function) (bool, string) {
+	c := ci.Common()
+	b, ok := c.Value.(*ssa.Builtin)
+	if !ok || b.Name() != "copy" || len(c.Args) != 2 {
+		return false, ""
+	}
+	dst := c.Args[0]
+	for {
+		sl, isSl := dst.(*ssa.Slice)
+		if !isSl {
+			break
+		}
+		dst = sl.X
+	}
+	root, touches, what := planWriteInfo(dst)
+	if !touches || (isFreshRoot(root, fn) && !viaSharedField(dst)) {
+		return false, ""
+	}
+	return true, "elements of " + what + " (copy)"
 }
 
 // planLibraryWrite: ins calls a pointer-receiver method of a type declared outside the module
@@ -173,7 +237,11 @@ func rulePlanImmutable(r *Run) {
 			case *ssa.MapUpdate:
 				what = "ScrubFields[…]"
 			case ssa.CallInstruction:
-				_, what = planLibraryWrite(x, fn)
+				if w, s := planCopyWrite(x, fn); w {
+					what = s
+				} else {
+					_, what = planLibraryWrite(x, fn)
+				}
 			}
 			if C[fn] {
 				r.OK(rule, fnName(fn), "write "+what, r.P.pos(ins.Pos()), "writer belongs to the construction set (reachable from SequentialPlanner.Plan)")
@@ -387,6 +455,69 @@ func ruleCacheKey(r *Run) {
 				"the plan is stored under a different key value than the one used for the lookup")
 		}
 	}
+	ruleCacheStoresSuccess(r, plan, inner)
+}
+
+// ruleCacheStoresSuccess (R10a, part 4): what is put into the plan cache is the result of a
+// delegate Plan call that succeeded — the store lies on the success side of that call's
+// error test. A cached failure (a nil plan) is served to every later identical operation
+// without an error.
+func ruleCacheStoresSuccess(r *Run, plan *ssa.Function, inner []*ssa.Call) {
+	const rule = "R10a"
+	n := 0
+	// storesCache: fn (or a module function it calls statically) writes an entry of the cache
+	var storesCache func(fn *ssa.Function, depth int) bool
+	storesCache = func(fn *ssa.Function, depth int) bool {
+		if depth > 2 {
+			return false
+		}
+		for _, ins := range allInstrs(fn) {
+			if mu, ok := ins.(*ssa.MapUpdate); ok && isCacheMap(mu.Map) {
+				return true
+			}
+		}
+		for _, e := range r.P.CG.Out[fn] {
+			if e.Kind == "static" && e.Callee != fn && storesCache(e.Callee, depth+1) {
+				return true
+			}
+		}
+		return false
+	}
+	for _, ins := range allInstrs(plan) {
+		// the store itself, or the call of a helper that makes it (`cp.store(hk, res)`)
+		var mu ssa.Instruction
+		switch x := ins.(type) {
+		case *ssa.MapUpdate:
+			if isCacheMap(x.Map) {
+				mu = x
+			}
+		case *ssa.Call:
+			if sc := x.Call.StaticCallee(); sc != nil && !x.Call.IsInvoke() && inModule(sc) && storesCache(r.P.declared(sc), 0) {
+				mu = x
+			}
+		}
+		if mu == nil {
+			continue
+		}
+		n++
+		good := false
+		for _, ic := range inner {
+			errv := errorOfCall(ic)
+			if errv == nil {
+				continue
+			}
+			for _, t := range failureTests(errv) {
+				b := mu.Block()
+				if (t.ok == b || t.ok.Dominates(b)) && t.fail != b && !blockReach(t.fail)[b] {
+					good = true
+				}
+			}
+		}
+		r.Check(good, rule, fnName(plan), "only successful plans are cached", r.P.pos(mu.Pos()),
+			"the store is reached only after the delegate planner's error was tested and found nil",
+			"the cache is written without (or before) testing the error of the delegate planner: a failed planning is cached as a nil plan, the next identical operation gets that nil plan *without* an error and the handler dereferences it")
+	}
+	r.AtLeast(rule, "stores into the plan cache", n, 1)
 }
 
 func isCacheMap(v ssa.Value) bool {
@@ -488,6 +619,64 @@ func ruleOperationType(r *Run) {
 		}
 	}
 	r.AtLeast(rule, "WithOperationType/Name call sites in the planner", m, 2)
+	// (4) the executor sends every step under the step's own operation name (set by the planner
+	// for root steps only, see (2)) — never under the client's: a follow-up `node(id:)` lookup is
+	// an anonymous query, and a service rejects an operationName that its document does not define
+	k := 0
+	// the value may pass through constructors (`requests.NewRequest(q, vars, name)`): a
+	// parameter is traced back to what each caller hands in; what the executor hands in is judged
+	type opnLeaf struct {
+		fn  *ssa.Function
+		v   ssa.Value
+		pos token.Pos
+	}
+	var expand func(fn *ssa.Function, v ssa.Value, pos token.Pos, depth int) []opnLeaf
+	expand = func(fn *ssa.Function, v ssa.Value, pos token.Pos, depth int) []opnLeaf {
+		if p, isParam := v.(*ssa.Parameter); isParam && depth < 3 {
+			idx := -1
+			for i, q := range fn.Params {
+				if q == p {
+					idx = i
+				}
+			}
+			var out []opnLeaf
+			for _, e := range r.P.CG.In[fn] {
+				if e.Kind == "static" && idx >= 0 && idx < len(e.Site.Common().Args) {
+					out = append(out, expand(e.Caller, e.Site.Common().Args[idx], e.Site.Pos(), depth+1)...)
+				}
+			}
+			if len(out) > 0 {
+				return out
+			}
+		}
+		return []opnLeaf{{fn, v, pos}}
+	}
+	for _, fn := range r.P.Funcs {
+		if !inModule(fn) {
+			continue
+		}
+		for _, ins := range allInstrs(fn) {
+			st, ok := ins.(*ssa.Store)
+			if !ok {
+				continue
+			}
+			fa, ok := st.Addr.(*ssa.FieldAddr)
+			if !ok || fieldOf(fa) == nil || fieldOf(fa).Name() != "OperationName" || namedOf(fa.X.Type()) != modPath+"/requests.Request" {
+				continue
+			}
+			for _, lf := range expand(fn, st.Val, st.Pos(), 0) {
+				if topFn(lf.fn).Pkg == nil || topFn(lf.fn).Pkg.Pkg.Path() != modPath+"/executor" {
+					continue
+				}
+				k++
+				good, why := stepOperationName(lf.v, 0)
+				r.Check(good, rule, fnName(lf.fn), "operation name of a downstream request", r.P.pos(lf.pos),
+					"the request carries QueryPlanStep.OperationName, which the planner sets on root steps only",
+					"a downstream request is not sent under its step's own operation name ("+why+"): the client's operation name reaches the follow-up lookups, whose documents are anonymous — the service answers `unknown operation` (C02), or runs the wrong operation")
+			}
+		}
+	}
+	r.AtLeast(rule, "downstream requests built by the executor", k, 1)
 	// (3) default operation type of a new formatter is the constant query
 	nf := r.Anchor(rule, "format.NewFormatter")
 	if nf != nil {
@@ -504,6 +693,41 @@ func ruleOperationType(r *Run) {
 		r.Check(okDef, rule, fnName(nf), "default operation type", r.P.pos(nf.Pos()), "NewFormatter initialises operationType to the constant `query`",
 			"a new formatter does not start as `query`: steps that never set an operation type would not be queries")
 	}
+}
+
+// stepOperationName: v is the OperationName field of a plan step (possibly handed through a
+// module helper, all of whose results are).
+func stepOperationName(v ssa.Value, depth int) (bool, string) {
+	if depth > 4 {
+		return false, "too deep"
+	}
+	switch x := v.(type) {
+	case *ssa.UnOp:
+		if fa, ok := x.X.(*ssa.FieldAddr); ok && x.Op == token.MUL && fieldOf(fa) != nil {
+			if fieldOf(fa).Name() == "OperationName" && namedOf(fa.X.Type()) == plannerPkg+".QueryPlanStep" {
+				return true, ""
+			}
+			return false, "it is " + shortStruct(namedOf(fa.X.Type())) + "." + fieldOf(fa).Name()
+		}
+	case *ssa.Phi:
+		for _, e := range x.Edges {
+			if ok, why := stepOperationName(e, depth+1); !ok {
+				return false, why
+			}
+		}
+		return true, ""
+	case *ssa.Call:
+		if sc := x.Call.StaticCallee(); sc != nil && !x.Call.IsInvoke() && inModule(sc) && len(sc.Blocks) > 0 && sc.Signature.Results().Len() == 1 {
+			for _, ret := range returnsOf(sc) {
+				if ok, why := stepOperationName(retVals(ret)[0], depth+1); !ok {
+					return false, "on one path of " + fnName(sc) + " " + why
+				}
+			}
+			return true, ""
+		}
+		return false, "it is the result of " + calleeDesc(&x.Call)
+	}
+	return false, "it is " + describeSrc(v)
 }
 
 // freshFormatter: v is format.NewBufferedFormatter() possibly followed by With* builder calls.
@@ -601,6 +825,18 @@ func freshSlice(v ssa.Value, depth int) (bool, string) {
 			// append(fresh, …) stays fresh only if the first operand is fresh/nil
 			return freshSlice(x.Call.Args[0], depth+1)
 		}
+		// a module helper that builds the copy (`copyPath(path)`): every value it returns is fresh
+		if sc := x.Call.StaticCallee(); sc != nil && inModule(sc) && len(sc.Blocks) > 0 && sc.Signature.Results().Len() == 1 {
+			rets := returnsOf(sc)
+			for _, ret := range rets {
+				if ok, why := freshSlice(retVals(ret)[0], depth+1); !ok {
+					return false, "result of " + calleeDesc(&x.Call) + ", which returns a " + why
+				}
+			}
+			if len(rets) > 0 {
+				return true, ""
+			}
+		}
 		return false, "result of " + calleeDesc(&x.Call)
 	case *ssa.Parameter:
 		return false, "parameter " + x.Name()
@@ -632,27 +868,66 @@ func astWrites(r *Run, onlyPkg string) {
 	var fns []*ssa.Function
 	fns = append(fns, r.P.Funcs...)
 	sort.Slice(fns, func(i, j int) bool { return fnName(fns[i]) < fnName(fns[j]) })
+	// map entries (see below) are judged on the request path only: start-up code builds the
+	// schemas it later publishes, helper functions included
+	var reqRoots []*ssa.Function
+	for _, nm := range []string{"pebbles.(*Gateway).Handler", "pebbles.(*Gateway).queryHandler", "pebbles.(*Gateway).subscriptionHandler", "pebbles.(*subscriptionEntry).Listen", "planner.(SequentialPlanner).Plan", "planner.(*CachedPlanner).Plan", "executor.(*DepthExecutorManager).Execute", "executor.(ParallelExecutor).Execute"} {
+		if f := r.P.Fn(nm); f != nil {
+			reqRoots = append(reqRoots, f)
+		}
+	}
+	onRequestPath := r.P.CG.Reachable(reqRoots, nil)
 	for _, fn := range fns {
 		// out-of-scope packages are walked silently so that table credits are consumed
 		r.silent = onlyPkg != "" && (topFn(fn).Pkg == nil || shortPkg(topFn(fn).Pkg.Pkg.Path()) != onlyPkg)
 		for _, ins := range allInstrs(fn) {
-			st, ok := ins.(*ssa.Store)
-			if !ok {
-				continue
+			var fa *ssa.FieldAddr
+			var st ssa.Instruction
+			suffix := ""
+			switch x := ins.(type) {
+			case *ssa.Store:
+				fa, _ = x.Addr.(*ssa.FieldAddr)
+				st = x
+			case *ssa.MapUpdate:
+				// an entry written into a map that an existing node holds (Schema.Types,
+				// Schema.PossibleTypes …): maps are not safe for a concurrent write and read
+				if ld, isLd := x.Map.(*ssa.UnOp); isLd && ld.Op == token.MUL {
+					fa, _ = ld.X.(*ssa.FieldAddr)
+				}
+				st = x
+				suffix = "[…]"
 			}
-			fa, ok := st.Addr.(*ssa.FieldAddr)
-			if !ok || fieldOf(fa) == nil || !strings.HasPrefix(namedOf(fa.X.Type()), "github.com/vektah/gqlparser/v2/ast.") {
+			if fa == nil || fieldOf(fa) == nil || !strings.HasPrefix(namedOf(fa.X.Type()), "github.com/vektah/gqlparser/v2/ast.") {
 				continue
 			}
 			// fresh: the node was allocated (or copied by value) in this function
 			if al, isAl := fa.X.(*ssa.Alloc); isAl && al.Parent() == fn {
+				if suffix == "" {
+					continue
+				}
+				// … for a map entry: and the map itself was made here
+				madeHere := false
+				for _, s2 := range allInstrs(fn) {
+					if s3, ok := s2.(*ssa.Store); ok {
+						if f3, ok := s3.Addr.(*ssa.FieldAddr); ok && f3.X == fa.X && f3.Field == fa.Field {
+							_, madeHere = s3.Val.(*ssa.MakeMap)
+						}
+					}
+				}
+				if madeHere {
+					continue
+				}
+			}
+			if suffix != "" && len(reqRoots) >= 4 && !onRequestPath[fn] && !onRequestPath[topFn(fn)] {
 				continue
 			}
 			n++
-			what := shortStruct(namedOf(fa.X.Type())) + "." + fieldOf(fa).Name()
+			what := shortStruct(namedOf(fa.X.Type())) + "." + fieldOf(fa).Name() + suffix
 			key := fnName(fn) + "/" + what
 			if reason, ok := useTable(r, astWriteTable, key); ok {
 				r.Tabled(rule, fnName(fn), "write "+what, r.P.pos(st.Pos()), "astWrite", reason)
+			} else if suffix != "" {
+				r.Bad(rule, fnName(fn), "write "+what, r.P.pos(st.Pos()), "an entry is written into a map held by an existing AST/schema object outside the confirmed start-up sites: the merged schema is shared by all requests, and a Go map that is written while another request reads it aborts the process (`concurrent map read and map write`); what later requests plan against also depends on which request came first — build a local copy instead")
 			} else {
 				r.Bad(rule, fnName(fn), "write "+what, r.P.pos(st.Pos()), "an existing AST node is modified in place outside the confirmed sites: nodes of the client's operation are shared (a fragment definition is one node for all its spreads; the operation may be planned again or concurrently), so a later use sees the altered node — take a copy (`n := *node`) and modify that")
 			}
